@@ -598,6 +598,8 @@ class Run:
             hash_, *rest = t
         except ValueError:
             return [3]
+        except TypeError:
+            return [4]                 # not a sequence: _load_item_cache raises TypeError, which it does not catch
         if not hash_:
             return [3]
         try:
